@@ -111,7 +111,7 @@ def gen_streams(tier, seed):
     rnd = random.Random(seed)
     dens = [1, 2, 3, 4, 5, 8, 48, 7]
     for _ in range(400 if tier == "quick" else 20000):
-        cols = rnd.randint(1, 4)
+        cols = rnd.randint(1, 4) if rnd.random() < 0.85 else rnd.randint(5, 16)
         players = rnd.choice([[0], [0], [1], [0, 1], [0, 2], [0, 1, 2]])
         seen = set()
         notes = []
@@ -134,7 +134,7 @@ class FromNotes(Bounded):
 
     def bound(self, tier):
         return ("the empty stream; all 1- and 2-note streams over 2 players x 6 beats (denominators 1,2,3,4) x 2 columns; "
-                + ("400" if tier == "quick" else "20000") + " generated sorted streams (<= 15 notes, <= 4 columns, players 0..2 with gaps, denominators 1,2,3,4,5,7,8,48, keysounds)")
+                + ("400" if tier == "quick" else "20000") + " generated sorted streams (<= 15 notes, <= 4 columns (15%: 5..16), players 0..2 with gaps, denominators 1,2,3,4,5,7,8,48, keysounds)")
 
     def run(self, tier, seed):
         import time
